@@ -718,28 +718,57 @@ func mutate(t *rapid.T, ts []tok) []tok {
 // ---------------------------------------------------------------------------
 // re-spacing
 
-var commentPieces = []string{"c", " comment", `"`, `\(`, ")", "#", `\\`, `\a`, "é", "|", "def ", "\t", "'", "\\\ncont", "\\\r\ncont", "\\\rcont", `\\\\`, "]", "}", "1", ` \ `}
+// Comments are built line by line after the rule of the jq 1.7 manual (and of
+// cli/test.yaml "query with comment with newline" + dos/mac variants): a
+// comment runs to the end of the line; when the line ends in an ODD number of
+// backslashes the line end (LF, CR LF or CR, CR LF counting as one) is escaped
+// and the comment continues on the next line, whatever that line looks like:
+// empty, only backslashes, starting with a backslash, containing "#", itself
+// continued.  An even number of backslashes does not continue.
+var commentPieces = []string{"c", " comment", `"`, `\(`, ")", "#", `\a`, "é", "|", "def ", "\t", "'", "]", "}", "1", ` \ `, `a\\b`, `\\x`, `\\\x`, " ", "# x", "+ 2"}
+
+var lineEnds = []string{"\n", "\n", "\n", "\r\n", "\r"}
 
 func genComment(t *rapid.T, last bool, nul bool) string {
 	var sb strings.Builder
 	sb.WriteByte('#')
-	for i, n := 0, rapid.IntRange(0, 4).Draw(t, "clen"); i < n; i++ {
-		if nul && rapid.IntRange(0, 9).Draw(t, "cnul") == 0 {
-			sb.WriteByte(0)
-			continue
+	prevEnd := ""
+	const maxLines = 5
+	for line := 0; line < maxLines; line++ {
+		content := ""
+		if line == 0 || rapid.IntRange(0, 9).Draw(t, "cline") >= 4 {
+			var lb strings.Builder
+			for i, n := 0, rapid.IntRange(0, 3).Draw(t, "clen"); i < n; i++ {
+				if nul && rapid.IntRange(0, 9).Draw(t, "cnul") == 0 {
+					lb.WriteByte(0)
+					continue
+				}
+				lb.WriteString(commentPieces[rapid.IntRange(0, len(commentPieces)-1).Draw(t, "cpiece")])
+			}
+			content = lb.String()
 		}
-		sb.WriteString(commentPieces[rapid.IntRange(0, len(commentPieces)-1).Draw(t, "cpiece")])
-	}
-	k := rapid.IntRange(0, 9).Draw(t, "cterm")
-	switch {
-	case last && k == 9:
-		// runs to the end of the program
-	case k < 7:
-		sb.WriteByte('\n')
-	case k == 7:
-		sb.WriteString("\r\n")
-	default:
-		sb.WriteByte('\r')
+		// trailing backslashes: 0..4
+		k := []int{0, 0, 0, 0, 1, 1, 1, 2, 2, 3, 3, 4}[rapid.IntRange(0, 11).Draw(t, "cbs")]
+		if line == maxLines-1 && k%2 == 1 {
+			k++
+		}
+		content += strings.Repeat(`\`, k)
+		end := lineEnds[rapid.IntRange(0, len(lineEnds)-1).Draw(t, "cend")]
+		if prevEnd == "\r" && content == "" && end == "\n" {
+			end = "\r\n" // `\` CR LF would be ONE escaped line end
+		}
+		sb.WriteString(content)
+		if last && rapid.IntRange(0, 7).Draw(t, "ceof") == 0 {
+			return sb.String() // the comment runs into the end of the program
+		}
+		sb.WriteString(end)
+		if k%2 == 0 {
+			return sb.String()
+		}
+		if last && rapid.IntRange(0, 7).Draw(t, "ceof2") == 0 {
+			return sb.String() // escaped line end, then end of the program
+		}
+		prevEnd = end
 	}
 	return sb.String()
 }
